@@ -47,7 +47,22 @@ def run(ctx):
     rep.rule("C01.R3", "bilinearity of quatprod and degrees of the algebra helpers", 8)
     rep.rule("C01.R4", "every division on the normalising path is by a form that is positive for every nonzero quaternion (the maps are total on R^4 without 0)", 3)
     rep.rule("C01.R5", "orientation convention shared by quatprod, T_SO3_quat, T_SO3_inv_quat and Exp_SO3_quat (signed expansion)", 5)
+    rep.rule("C01.R6", "no fractional value is stored into a buffer typed by the quaternion argument (K17: silent truncation for integer-typed quaternions)", 6)
+    from .. import dtypes
     rot, alg = ctx.repo.module(ROT), ctx.repo.module(ALG)
+    for s_ in rot.tree.body + alg.tree.body:
+        if isinstance(s_, ast.FunctionDef) and ("quat" in s_.name or s_.name in ("ax2skew", "ax2skew_squared", "cross3")):
+            rel_ = ROT if s_ in rot.tree.body else ALG
+            outs, bufs = dtypes.narrowing_stores(s_)
+            seen_ = set()
+            for st, b, c, why in outs:
+                if id(st) in seen_:
+                    continue
+                seen_.add(id(st))
+                rep.bad("C01.R6", f"{rel_}:{s_.name}", st, f"`{norm_src(st)[:80]}` stores a fractional value ({why}) into `{b}`, which is allocated with the dtype of the argument `{c}`: "
+                        f"for an integer-typed quaternion (np.array([1, 0, 0, 0])) the store truncates silently and the map is no longer the algebraic one", f"{rel_}:{st.lineno}")
+            if not outs:
+                rep.ok("C01.R6", f"{rel_}:{s_.name}", f"{len(bufs)} buffer(s) typed by an argument, none receives a fractional store" if bufs else "no buffer typed by an argument")
     fns = {}
     for mod in (alg, rot):
         for s in mod.tree.body:
@@ -309,4 +324,14 @@ NEUTRAL = [
     dict(id="c01-n1", canary=True, what="Exp_SO3_quat with the division written out", file=ROT,
          old="    matrix = 2 * (p0 * ax2skew(p) + ax2skew_squared(p))\n    if normalize:\n        matrix /= P @ P\n    return eye3 + matrix",
          new="    matrix = 2 * (p0 * ax2skew(p) + ax2skew_squared(p))\n    if normalize:\n        matrix = matrix / (P @ P)\n    return eye3 + matrix"),
+]
+MUTANTS += [
+    dict(id="c01-r6-seed", canary=True, what="[seeded by sub-agent] T_SO3_inv_quat assembled in a buffer typed by P", file=ROT,
+         old="    return np.vstack((-p, p0 * eye3 + ax2skew(p))) / 2\n",
+         new="    T_inv = np.empty((4, 3), dtype=P.dtype)\n    T_inv[0] = -0.5 * p\n    T_inv[1:] = 0.5 * (p0 * eye3 + ax2skew(p))\n    return T_inv\n", expect="C01.R6"),
+]
+NEUTRAL += [
+    dict(id="c01-n-r6", canary=True, what="T_SO3_inv_quat assembled in a float/complex-safe buffer", file=ROT,
+         old="    return np.vstack((-p, p0 * eye3 + ax2skew(p))) / 2\n",
+         new="    T_inv = np.empty((4, 3), dtype=np.common_type(P))\n    T_inv[0] = -0.5 * p\n    T_inv[1:] = 0.5 * (p0 * eye3 + ax2skew(p))\n    return T_inv\n"),
 ]
